@@ -38,4 +38,22 @@ inductive Valid (defs : List (String × Schema)) : Schema → Json → Prop
       (∀ xs s, j = .arr xs → items = some s → ∀ x ∈ xs, Valid defs s x) →
       Valid defs (.node ty enum req props items) j
 
+/-- an executable validator (fuel = recursion depth), the reference the harness compares with an independent validator -/
+def validateB (defs : List (String × Schema)) : Nat → Schema → Json → Bool
+  | 0, _, _ => false
+  | n+1, .ref name, j => match defs.lookup name with | some s => validateB defs n s j | none => false
+  | n+1, .anyOf alts, j => alts.any (fun s => validateB defs n s j)
+  | n+1, .node ty enum req props items, j =>
+    tyOK ty j && enumOK enum j &&
+    (match j with
+      | .obj kvs => req.all (fun r => (jget r kvs).isSome) &&
+          props.all (fun p => match jget p.1 kvs with | some v => validateB defs n p.2 v | none => true)
+      | _ => true) &&
+    (match j, items with
+      | .arr xs, some s => xs.all (fun x => validateB defs n s x)
+      | _, _ => true)
+
+/-- fuel enough for any document: every step consumes fuel, and the schema's reference chains are short -/
+def validate (defs : List (String × Schema)) (root : Schema) (j : Json) : Bool := validateB defs 200 root j
+
 end CDV
